@@ -25,7 +25,9 @@ static Case genRecCase(Choices &c, int tier, const char *prop, int errorPct, boo
   if (tier) { o.maxT = 4; o.maxN = 5; o.extraRules += 2; }
   GramDef gd;
   bool block = errorPct > 0 && c.upto(9) >= 7; // 30%: block-structured template with several error rules
-  gd.raw = block ? genBlockGrammar(c, o) : genGrammar(c, o);
+  bool chain = !block && c.chance(15); // chain template (see gen.hpp), with an error rule at the end of a start rule
+  if (chain) { GramOpts oc = o; oc.errorPct = 100; gd.raw = genChainGrammar(c, oc); }
+  else gd.raw = block ? genBlockGrammar(c, o) : genGrammar(c, o);
   gd.strict = strictOnly ? 1 : c.flip();
   if (!strictOnly && !classify(gd.raw, gd.strict).empty() && classify(gd.raw, !gd.strict).empty()) gd.strict = !gd.strict;
   cs.grams.push_back(gd);
@@ -33,7 +35,7 @@ static Case genRecCase(Choices &c, int tier, const char *prop, int errorPct, boo
   if (!toGram(gd.raw, g) || !classify(gd.raw, gd.strict).empty()) return cs;
   std::vector<int> ml = minLen(g);
   int maxLen = tier ? 14 : 9;
-  if (block) maxLen += 4;
+  if (block || chain) maxLen += 4;
   for (int k = 0; k < nInputs; k++) {
     int kind = c.chance(10) ? 0 : (c.chance(75) ? 1 : 2);
     cs.inputs.push_back(toCodes(g, genInputIdx(c, g, ml, maxLen, kind)));
